@@ -415,7 +415,8 @@ def generate(tier, seed, wd):
         sim, nsim = dict(NThreads=3, NOps=2, MaxDepth=2, MaxOps=5, MaxEvents=10), 250
     else:
         mc = dict(NThreads=3, NOps=2, MaxDepth=2, MaxOps=4, MaxEvents=7)
-        ex = [dict(NThreads=2, NOps=1, MaxDepth=2, MaxOps=3, MaxEvents=6), dict(NThreads=3, NOps=2, MaxDepth=2, MaxOps=3, MaxEvents=4)]
+        ex = [dict(NThreads=2, NOps=1, MaxDepth=2, MaxOps=3, MaxEvents=5), dict(NThreads=2, NOps=2, MaxDepth=2, MaxOps=3, MaxEvents=5),
+              dict(NThreads=3, NOps=2, MaxDepth=2, MaxOps=3, MaxEvents=4)]
         sim, nsim = dict(NThreads=3, NOps=2, MaxDepth=3, MaxOps=7, MaxEvents=14), 2500
     runs = []
     m = _tlc("DecompCtx", lib.cfg(constants=mc, invariants=INVS, view="NoHist"), wd / "mc", timeout=3000)
